@@ -8,6 +8,9 @@ Definition regex_field (field v : str) (st : site) : err :=
   if site_match st v then None else leaf (field ++ s ": invalid " ++ quote v).
 Definition opt_regex_field (field : str) (v : option str) (st : site) : err :=
   match v with None => None | Some x => regex_field field x st end.
+(** identifiers the generated file needs for itself: same diagnostic as a value outside the grammar *)
+Definition reserved_field (field : str) (v : option str) (names : list str) : err :=
+  match v with Some x => if mem x names then leaf (field ++ s ": invalid " ++ quote x) else None | None => None end.
 Definition unsupported (name : str) (p : prim) : err := leaf (name ++ s ": unsupported type " ++ gotype_of p).
 
 Definition nstr (n : nat) : str := dec_of_N (N.of_nat n).
@@ -32,7 +35,9 @@ Definition v_meta (i : input) : err :=
   gprefix (s "meta: ")
     [ opt_regex_field (s "pkg") (m_pkg m) (re_in_MetaPkg E);
       opt_regex_field (s "container_type") (m_container_type m) (re_in_MetaContainerType E);
+      reserved_field (s "container_type") (m_container_type m) [s "rootGontainer"];
       opt_regex_field (s "container_constructor") (m_container_constructor m) (re_in_MetaContainerConstructor E);
+      reserved_field (s "container_constructor") (m_container_constructor m) [s "init"; s "main"];
       v_meta_imports m; v_meta_functions m ].
 
 (** params *)
